@@ -1539,6 +1539,27 @@ impl<'a> Ctx<'a> {
             init_op: "=",
         });
         let elem = |i: usize| Expr::Access(arr.clone(), vec![Acc::Idx(Expr::Num(format!("{i}")))]);
+        if self.rng.chance(1, 4) {
+            // the very first writes happen in two sibling branches
+            let c = self.cond();
+            let e1 = self.expr(2, mode);
+            let e2 = self.expr(1, 0);
+            let (i1, i2) = if self.rng.chance(1, 2) { (0, 1) } else { (0, 0) };
+            stmts.push(Stmt::If {
+                cond: c,
+                then: Box::new(Stmt::Block(vec![Stmt::Assign { lhs: elem(i1), op: "=", rhs: e1, reversed: false }])),
+                els: Some(Box::new(Stmt::Block(vec![Stmt::Assign { lhs: elem(i2), op: "=", rhs: e2, reversed: false }]))),
+            });
+            self.declare_var(&arr, 1, 2);
+            let t = self.new_var_name();
+            self.declare_var(&t, 0, 0);
+            stmts.push(Stmt::Decl { kw: DeclKw::Var, items: vec![DeclItem { name: t, dims: vec![], init: Some(elem(0)) }], init_op: "=" });
+            let mut toks = Vec::new();
+            for s in &stmts {
+                stmt_tokens(s, &mut toks);
+            }
+            return Some(Stmt::Raw(toks));
+        }
         let first = self.rng.usize(2);
         let dd = 2 + self.rng.usize(2);
         let deep = self.expr(dd, mode);
